@@ -20,8 +20,8 @@ import (
 
 func init() {
 	core.Register(&core.Check{
-		ID: "C37",
-		Rule: "cases: (a) every linked file whose generated Go types still expose the compressed raw descriptor (legacy Descriptor()/EnumDescriptor() methods): the descriptor the compact builder made from those bytes vs protodesc.NewFile of the FileDescriptorProto decoded from the same bytes; other linked files via ToFileDescriptorProto; (b) PRNG-generated valid multi-file schemas (as in C34): filedesc.Builder on Marshal(p) with a local file registry vs protodesc.NewFile(p); oracle: deep accessor snapshots equal line by line after touching every lazily decoded accessor (options compared as deterministic bytes); distinct = distinct raw descriptors; non-trivial = at least one message or enum",
+		ID:     "C37",
+		Rule:   "cases: (a) every linked file whose generated Go types still expose the compressed raw descriptor (legacy Descriptor()/EnumDescriptor() methods): the descriptor the compact builder made from those bytes vs protodesc.NewFile of the FileDescriptorProto decoded from the same bytes; other linked files via ToFileDescriptorProto; (b) PRNG-generated valid multi-file schemas (as in C34): filedesc.Builder on Marshal(p) with a local file registry vs protodesc.NewFile(p); oracle: deep accessor snapshots equal line by line after touching every lazily decoded accessor (options compared as deterministic bytes); distinct = distinct raw descriptors; non-trivial = at least one message or enum",
 		Assume: []string{"harness/model/descsnap.go", "proto.Unmarshal of descriptor.proto messages (C03/C06)"},
 		Batches: func(tier string) []core.Batch {
 			bs := []core.Batch{{Cfg: "base", Name: "linked", Kind: "linked"}, {Cfg: "legacy", Name: "linked-legacy", Kind: "linked"}}
